@@ -127,7 +127,7 @@ func (e *Engine) mergeable(fn *ssa.Function) bool {
 	if e.cfg.NoMerge || e.noMerge[fn] {
 		return false
 	}
-	if e.inHarnessFile(fn) {
+	if strings.HasPrefix(fn.Name(), "vpH_") {
 		return false
 	}
 	return true
